@@ -9,14 +9,18 @@ Svc == <<"grpc.testing.TestService">>
 S1 == [host |-> "",   path |-> Svc]
 S2 == [host |-> "h1", path |-> Svc]
 S3 == [host |-> "",   path |-> Svc \o <<"UnaryCall">>]
+\* a method path that collides with a service a grpc.Server may register itself: routed like any other
+S4 == [host |-> "h1", path |-> <<"grpc.health.v1.Health">>]
 MCSlots2 == {S1, S2}
+MCSlotsH == {S1, S2, S4}
+MCSlots4 == {S1, S2, S3, S4}
 MCSlots3 == {S1, S2, S3}
 MCBackends == {"b1", "b2"}
 
 MCTablesAll == [Slots -> MCBackends \cup {""}]
 \* one fixed table for the per-call universe: host-less service route -> b1, h1 -> b2, and (with three
 \* slots) the more specific host-less method route -> b2
-MCTablesFixed == {[s \in Slots |-> IF s.host = "" /\ Len(s.path) = 1 THEN "b1" ELSE "b2"]}
+MCTablesFixed == {[s \in Slots |-> IF (s.host = "" /\ Len(s.path) = 1) \/ s = S4 THEN "b1" ELSE "b2"]}
 
 PathOf(kind) ==
     CASE kind = "unary"   -> Svc \o <<"UnaryCall">>
@@ -24,8 +28,11 @@ PathOf(kind) ==
       [] kind = "sstream" -> Svc \o <<"StreamingOutputCall">>
       [] kind = "bidi"    -> Svc \o <<"FullDuplexCall">>
       [] kind = "noroute" -> <<"grpc.testing.UnimplementedService", "UnimplementedCall">>
+      [] kind = "hcheck"  -> <<"grpc.health.v1.Health", "Check">>
+      [] kind = "hwatch"  -> <<"grpc.health.v1.Health", "Watch">>
 MsgOf(code) ==
-    CASE code = 0 -> "" [] code = 5 -> "nf" [] code = 13 -> "boom" [] OTHER -> "custom"
+    CASE code = 0 -> "" [] code = 5 -> "nf" [] code = 13 -> "boom" [] code = 14 -> "unavail" [] code = 8 -> "quota"
+      [] OTHER -> "custom"
 
 Mk(kind, host, md, reqs, resps, gate, early, hdr, trl, code) ==
     [kind |-> kind, path |-> PathOf(kind), host |-> host, md |-> md, reqs |-> reqs, resps |-> resps,
@@ -53,15 +60,27 @@ Bidi(H, M, HD, TR, C, G) ==
 \* and its responses cannot wait for requests
 WellFormed(c) == c.early => (Len(c.reqs) > 0 /\ c.gate \in {"eager", "late"} /\ (c.kind = "bidi" => c.gate = "eager"))
 
+\* the health checking protocol: Check is unary, Watch streams; with the route for host h1 only, a call
+\* without that host has no route
+Health(H, M, HD, TR, C) ==
+    {Mk("hcheck", h, m, <<q>>, OneIfOK(c), "echo", FALSE, hd, tr, c) : h \in H, m \in M, hd \in HD, tr \in TR, c \in C, q \in {"q1", "q2"}}
+    \cup {Mk("hwatch", h, m, <<"q1">>, r, "echo", FALSE, hd, tr, c) :
+             h \in H, m \in M, hd \in HD, tr \in TR, c \in C, r \in {<<>>, <<"r1", "r2">>}}
+
 AllKinds(H, M, HD, TR, C, G) ==
     {c \in Unary(H, M, HD, TR, C) \cup NoRoute(H, M) \cup CStream(H, M, HD, TR, C)
            \cup SStream(H, M, HD, TR, C) \cup Bidi(H, M, HD, TR, C, G) : WellFormed(c)}
 
-Codes == {0, 5, 13, 42}
+\* final statuses: OK; the backend's own NotFound; retryable-looking ones (Unavailable, ResourceExhausted)
+\* -- which, with no response and no header, are answered "trailers-only"; Internal; a code outside the enum
+Codes == {0, 5, 8, 13, 14, 42}
+CodesQuick == {0, 5, 14, 42}
 \* per-call universe: everything about ONE call
 MCCallsFull  == AllKinds({"", "h1", "h2"}, {"none", "one", "multi"}, {"none", "set", "send"}, {"none", "some"}, Codes,
                          {"eager", "echo", "late"})
-MCCallsQuick == AllKinds({"", "h1"}, {"none", "multi"}, {"none", "set"}, {"some"}, Codes, {"eager", "echo", "late"})
+                \cup Health({"", "h1"}, {"one"}, {"none", "set"}, {"some"}, {0, 13, 14})
+MCCallsQuick == AllKinds({"", "h1"}, {"none", "multi"}, {"none", "set"}, {"some"}, CodesQuick, {"eager", "echo", "late"})
+                \cup Health({"", "h1"}, {"one"}, {"none", "set"}, {"some"}, {0, 14})
 \* history universe: what matters for routing and the pool (who is called, does it reach a backend)
 MCCallsHist  == Unary({"", "h1", "h2"}, {"one"}, {"set"}, {"some"}, {0})
                 \cup Unary({""}, {"one"}, {"set"}, {"some"}, {13})
@@ -77,6 +96,10 @@ MCBurstCalls == Unary({""}, {"multi"}, {"set"}, {"some"}, {0})
                 \cup {c \in Bidi({"", "h1"}, {"one"}, {"send"}, {"some"}, {0, 13}, {"echo"}) :
                          ~c.early /\ Len(c.reqs) = 1 /\ Len(c.resps) = 1}
 MCBurstSizes == {2, 3}
+\* flapping: a backend leaves the table, the clean-up runs, it comes back and is called while the old
+\* connection is still waiting to be closed; the call is a stream that stays open across that moment
+MCCallsFlap == {c \in Bidi({""}, {"one"}, {"send"}, {"some"}, {0}, {"echo"}) : ~c.early /\ Len(c.reqs) = 2 /\ Len(c.resps) = 2}
+MCTablesFlap == {[s \in Slots |-> IF s.host = "" THEN b ELSE ""] : b \in {"", "b1"}}
 
 -----------------------------------------------------------------------------
 TableJson(t) == {[host |-> s.host, path |-> s.path, be |-> t[s]] : s \in {x \in Slots : t[x] # ""}}
